@@ -36,6 +36,9 @@ type op struct {
 	// exclusive upper bound is the round key with the last byte incremented, which wraps to 0x00 without
 	// carry, so only rows with updround < round-255 are in range.
 	ffAns []string
+	// devP: what generickv's AccountsOnlineTop is known to answer (finding AccountsOnlineTop/*): it pages over
+	// the raw (round, balance, address) index instead of over accounts (model.onlineTopPebble)
+	devP []string
 }
 
 const nReadKinds = 25
@@ -533,6 +536,7 @@ func (s *Sim) buildRead(kind int, p []int, rc int) *op {
 		}
 		if r >= m.onlFB {
 			o.exp = m.onlineTop(r, offset, n, ru)
+			o.devP = m.onlineTopPebble(r, offset, n, ru)
 		}
 	case 18: // ExpiredOnlineAccountsForRound
 		r := s.pickRound(m, p[0])
@@ -697,6 +701,14 @@ func (s *Sim) buildRead(kind int, p []int, rc int) *op {
 				pg := m.onlineTop(r, off, batch, ru)
 				o.exp = append(o.exp, fmt.Sprintf("offset=%d", off))
 				o.exp = append(o.exp, pg...)
+				if pg[0] == "n=0" {
+					break
+				}
+			}
+			for off := uint64(0); off < 12; off += batch {
+				pg := m.onlineTopPebble(r, off, batch, ru)
+				o.devP = append(o.devP, fmt.Sprintf("offset=%d", off))
+				o.devP = append(o.devP, pg...)
 				if pg[0] == "n=0" {
 					break
 				}
@@ -909,4 +921,53 @@ func (m *model) perVariant(f func(h map[int]map[uint64]onlineEntry) []string) (e
 		expP = p
 	}
 	return
+}
+
+// onlineTopPebble is the known, deviating behaviour of generickv.AccountsOnlineTop, written from its code
+// comments: a reverse scan of the secondary index rows (round, normalized balance, address) with round <= rnd;
+// the first `offset` ROWS are skipped, then up to n rows are consumed, a row of an address already collected
+// being consumed without effect; offline rows (balance 0) are not filtered. It runs on the Pebble variant of
+// the pruned table. Pebble's answer must equal either the reference answer or exactly this.
+func (m *model) onlineTopPebble(r, offset, n, rewardUnit uint64) []string {
+	type row struct {
+		upd  uint64
+		norm uint64
+		a    int
+		e    onlineEntry
+	}
+	var rows []row
+	for a, h := range m.hist[1] {
+		for upd, e := range h {
+			if upd <= r {
+				rows = append(rows, row{upd, e.norm, a, e})
+			}
+		}
+	}
+	sort.Slice(rows, func(i, j int) bool {
+		x, y := rows[i], rows[j]
+		if x.upd != y.upd {
+			return x.upd > y.upd
+		}
+		if x.norm != y.norm {
+			return x.norm > y.norm
+		}
+		return string(addrs[x.a][:]) > string(addrs[y.a][:])
+	})
+	mp := map[basics.Address]*ledgercore.OnlineAccount{}
+	i := offset
+	for k := uint64(0); k < n; k++ {
+		if i >= uint64(len(rows)) {
+			break
+		}
+		c := rows[i]
+		i++
+		if _, dup := mp[addrs[c.a]]; dup {
+			continue
+		}
+		d := c.e.data
+		mp[addrs[c.a]] = &ledgercore.OnlineAccount{Address: addrs[c.a], MicroAlgos: d.MicroAlgos, RewardsBase: d.RewardsBase,
+			NormalizedOnlineBalance: basics.NormalizedOnlineAccountBalance(basics.Online, d.RewardsBase, d.MicroAlgos, rewardUnit),
+			VoteFirstValid: d.VoteFirstValid, VoteLastValid: d.VoteLastValid, StateProofID: d.StateProofID}
+	}
+	return fmtOnlineTop(mp)
 }
